@@ -62,13 +62,34 @@ type tok struct {
 
 const eof = rune(-1)
 
+// tagset is a small set of input feature tags (a bit per known tag).
+type tagset struct{ bits uint32 }
+
+var tagNames = []string{
+	"eof-in-comment", "eof-in-comment-nested", "eof-in-string", "eof-in-url", "bad-string", "bad-url",
+	"bad-url:backslash-newline", "bad-url:escaped-backslash-before-paren", "bad-url:after-space", "bad-escape",
+	"escape-at-eof", "eof-in-block", "unmatched-close", "escape", "nonascii", "nul",
+}
+
+func tagBit(name string) uint32 {
+	for i, n := range tagNames {
+		if n == name {
+			return 1 << uint(i)
+		}
+	}
+	panic("c06: unknown tag " + name)
+}
+
+func (t *tagset) add(name string)      { t.bits |= tagBit(name) }
+func (t *tagset) has(name string) bool { return t.bits&tagBit(name) != 0 }
+
 type lexer struct {
 	r     []rune
 	pos   int
 	lines []int // per rune index (and one past the end)
 	cols  []int
-	perr  int             // number of "this is a parse error" reached
-	tags  map[string]bool // input feature tags
+	perr  int     // number of "this is a parse error" reached
+	tags  *tagset // input feature tags
 }
 
 // preprocess implements §3.3.
@@ -95,7 +116,7 @@ func preprocess(s string) []rune {
 }
 
 func newLexer(s string) *lexer {
-	l := &lexer{r: preprocess(s), tags: map[string]bool{}}
+	l := &lexer{r: preprocess(s), tags: &tagset{}}
 	n := len(l.r)
 	l.lines = make([]int, n+1)
 	l.cols = make([]int, n+1)
@@ -113,10 +134,10 @@ func newLexer(s string) *lexer {
 	}
 	for _, c := range s {
 		if c >= 0x80 {
-			l.tags["nonascii"] = true
+			l.tags.add("nonascii")
 		}
 		if c == 0 {
-			l.tags["nul"] = true
+			l.tags.add("nul")
 		}
 	}
 	return l
@@ -131,7 +152,7 @@ func (l *lexer) at(i int) rune {
 
 func (l *lexer) parseError(tag string) {
 	l.perr++
-	l.tags[tag] = true
+	l.tags.add(tag)
 }
 
 // §4.2 definitions
@@ -179,7 +200,7 @@ func startsNumber(a, b, c rune) bool {
 
 // §4.3.7 consume an escaped code point (the backslash has been consumed)
 func (l *lexer) consumeEscape() rune {
-	l.tags["escape"] = true
+	l.tags.add("escape")
 	c := l.at(0)
 	if c == eof {
 		l.parseError("escape-at-eof")
@@ -309,7 +330,7 @@ func (l *lexer) consumeString(end rune) tok {
 		case c == '\\':
 			if l.at(1) == eof {
 				l.pos++ // do nothing
-				l.tags["escape-at-eof"] = true
+				l.tags.add("escape-at-eof")
 			} else if l.at(1) == '\n' {
 				l.pos += 2
 			} else {
@@ -336,7 +357,7 @@ func (l *lexer) consumeBadURLRemnants() {
 		}
 		if validEscape(c, l.at(1)) {
 			if l.at(1) == '\\' && l.at(2) == ')' {
-				l.tags["bad-url:escaped-backslash-before-paren"] = true
+				l.tags.add("bad-url:escaped-backslash-before-paren")
 			}
 			l.pos++
 			l.consumeEscape()
@@ -374,7 +395,7 @@ func (l *lexer) consumeURL() tok {
 				return tok{k: tURL, val: sb.String(), eof: true}
 			}
 			l.parseError("bad-url")
-			l.tags["bad-url:after-space"] = true
+			l.tags.add("bad-url:after-space")
 			l.consumeBadURLRemnants()
 			return tok{k: tBadURL}
 		case c == '"' || c == '\'' || c == '(' || isNonPrintable(c):
@@ -387,7 +408,7 @@ func (l *lexer) consumeURL() tok {
 				sb.WriteRune(l.consumeEscape())
 			} else {
 				l.parseError("bad-url")
-				l.tags["bad-url:backslash-newline"] = true
+				l.tags.add("bad-url:backslash-newline")
 				l.consumeBadURLRemnants()
 				return tok{k: tBadURL}
 			}
